@@ -10,7 +10,10 @@ import vlib
 
 SINK_IDS = ['1', '3', '4', '5', '6', '7', '8']
 LIGHT = ['strings', 'bytes,bufio,strconv,errors,sort,unicode,path', 'fmt,io', 'encoding', 'time,sync,regexp', 'flag,log', 'os', 'reflect']
-TIERS = {'quick': dict(groups=LIGHT, batch=100000), 'thorough': dict(groups=LIGHT + ['net', 'crypto'], batch=6)}
+# the net and crypto groups are not run: analysing a program that imports net/http or crypto/tls makes the analyzer
+# exceed the 62 GB of this sandbox (the worker is OOM-killed); their table entries are covered by the signature
+# conformance part only. thorough = the same groups in small programs (25 calls each: less masking by imprecision).
+TIERS = {'quick': dict(groups=LIGHT, batch=100000), 'thorough': dict(groups=LIGHT, batch=25)}
 
 
 def warm():
@@ -97,5 +100,5 @@ def main(tier):
                    native_truth_hash=thash, samples=samples)
     rep.assumptions = ['only string-like carriers are used as tokens (numeric parameters are never the source position)',
                        'entries whose parameters cannot be synthesised type-directedly are listed as not invocable',
-                       'quick analyses the one-call functions of each package group in one program and leaves out the net and crypto tables (their dependency closure makes the analyzer run out of memory when batched); thorough adds them with 6 calls per program; extra imprecision can only add reported flows (masking possible, no false alarm)']
+                       'the one-call functions of each package group are analysed in one program (quick) or in programs of 25 calls (thorough); the net and crypto tables are left out of part (2) in both tiers (a program importing net/http makes the analyzer exceed the 62 GB of the sandbox); extra imprecision can only add reported flows (masking possible, no false alarm)']
     return rep.finish(exhaustive=True)
